@@ -101,3 +101,28 @@ Definition step_cost (op : N) (s : list N) (st : mstate) : option N :=
     | _ => None
     end
   end.
+
+(** CREATE / CREATE2: constant 32000 + gasCreate (= pureMemoryGascost) / gasCreate2 (hash: 6 per word of init code) before
+    Shanghai; gasCreateEip3860 / gasCreate2Eip3860 (init code at most 49152 bytes, 2 resp. 2 + 6 per word) from Shanghai *)
+Definition create_cost (shanghai : bool) (op : N) (s : list N) (st : mstate) : option N :=
+  match rounded_size op s with
+  | None => None
+  | Some msize =>
+    match memory_gas_cost64 st msize with
+    | Ok (fee, _) =>
+      let size := back s 2 in
+      if two64 <=? size then None
+      else if shanghai then
+        if 49152 <? size then None
+        else match safe_add fee ((if op =? 0xf0 then 2 else 2 + 6) * ((size + 31) / 32)) with
+             | Some g => Some (32000 + g)
+             | None => None
+             end
+      else if op =? 0xf0 then Some (32000 + fee)
+      else match safe_mul (to_word_size size) 6 with
+           | Some w => match safe_add fee w with Some g => Some (32000 + g) | None => None end
+           | None => None
+           end
+    | _ => None
+    end
+  end.
